@@ -79,6 +79,17 @@ func gramReplay(side *gramSide) func(c *explore.Ctx, s *explore.SubStats, v expl
 		if json.Unmarshal(v.Input, &in) != nil {
 			return
 		}
+		if v.Sub == "call-histories" {
+			var hi histInput
+			if json.Unmarshal(v.Input, &hi) == nil && len(hi.Calls) > 0 {
+				alone := map[parseCall]string{}
+				for _, pc := range histAlphabet() {
+					alone[pc] = pc.run()
+				}
+				histCase(c, s, alone, hi.Calls)
+			}
+			return
+		}
 		if v.Sub == "sources" {
 			var si sourcesInput
 			if json.Unmarshal(v.Input, &si) == nil && len(si.Sources) > 0 {
@@ -107,11 +118,13 @@ func gramCase(c *explore.Ctx, s *explore.SubStats, side *gramSide, g *refgrammar
 	}
 	var want refgrammar.ParseResult
 	var toks []refgrammar.Tok
+	lexedOK := false
 	if expect != nil {
 		want = *expect
 	} else {
 		var lexOK bool
 		toks, lexOK = gramToks(in.Text)
+		lexedOK = lexOK
 		if !lexOK {
 			if knownLexInvalid {
 				want = refgrammar.ParseResult{}
@@ -128,7 +141,8 @@ func gramCase(c *explore.Ctx, s *explore.SubStats, side *gramSide, g *refgrammar
 			}
 		}
 	}
-	if !want.OK && len(toks) == 0 && expect == nil && strings.TrimSpace(strings.ReplaceAll(in.Text, ",", "")) == "" {
+	if !want.OK && len(toks) == 0 && expect == nil && (lexedOK || strings.TrimSpace(strings.ReplaceAll(in.Text, ",", "")) == "") {
+		// no token at all (ignored characters and comments only): the empty document
 		s.Undecided++
 		s.Outcome("empty-document")
 		return
@@ -543,6 +557,8 @@ func runGram(c *explore.Ctx, side *gramSide) {
 		sourcesSub(c, side, g)
 	}
 	valuesSub(c, side, g)
+	histSub(c)
+	familiesAcceptSub(c, side, g)
 	corpusSub(c, side, g)
 }
 
